@@ -423,9 +423,12 @@ package memberlist
 //@   safety [C13]
 //@   requires ok: mlNet(m) && from != nil
 
+//@ ghost $eccRes int
 //@ func (*Memberlist).handleAlive(m, buf, from)
 //@   safety [C13,C18]
 //@   requires ok: mlNet(m) && from != nil
+//@   at call (*Memberlist).ensureCanConnect: set $eccRes := res
+//@   at call (*Memberlist).aliveNode: assert source-checked-first [C18]: $eccRes == 0 && !bootstrap && notify == nil
 
 //@ func (*Memberlist).handleDead(m, buf, from)
 //@   safety [C13]
@@ -1058,3 +1061,16 @@ package memberlist
 //@   loop #1 invariant one [C03]: $probes == old($probes) && numCheck >= 0 && m.probeIndex >= 0
 //@   ensures at-most-one-probe [C03]: $probes <= old($probes) + 1
 //@   ensures gives-up-only-after-full-pass [C03]: $probes == old($probes) ==> numCheck >= $seenLen
+
+// C18: the source-address check of alive gossip
+//@ ghost $ipaCalled bool
+//@ ghost $ipaRes int
+//@ ghost $srcStr string
+//@ func (*Memberlist).ensureCanConnect(m, from)
+//@   safety [C13,C18]
+//@   requires ok: mlNet(m) && from != nil
+//@   at call (*Config).IPMustBeChecked: set $ipaCalled := false
+//@   at call net.Addr.String: set $srcStr := res
+//@   at call (*Config).IPAllowed: set $ipaCalled := true
+//@   at call (*Config).IPAllowed: set $ipaRes := res
+//@   ensures allow-only-if-checked [C18]: result == nil ==> len(m.config.CIDRsAllowed) == 0 || $srcStr == "pipe" || ($ipaCalled && $ipaRes == 0)
